@@ -277,6 +277,40 @@ def set_rule():
     return "max" if fixed else "cas0"
 
 
+def c04(chk):
+    quick = chk.tier == "quick"
+    common = dict(view="CView", emit="EmitFinal", invariants=("RecoveredIsAcked", "IdleIsAcked", "ListedIsReadable"), properties=(), fs=False)
+    # design: every workload of <= MaxOps calls x a kill before every persistent mutation x a second kill (also inside recovery);
+    # conformance: the complete workloads TLC emits are executed in child processes that are killed before every mutation
+    os.environ["VERIF_CRASH_ARGS"] = "-points=all -double=%d" % (1 if quick else 6)
+    spec_stage(chk, "crash_3ops", "FsDbCrash.tla", dict(Keys=K2, MaxOps=3, MaxCrash=2, SwapRecordOrder=False, SplitCommit=False),
+               exe="crash", sample=64 if quick else None, chunk=2, keep=lambda w: any(o["op"] == "set" for o in w), **common)
+    spec_stage(chk, "crash_4ops", "FsDbCrash.tla", dict(Keys=K2, MaxOps=4, MaxCrash=1 if quick else 2, SwapRecordOrder=False, SplitCommit=False),
+               exe="crash", sample=96 if quick else 1200, chunk=3,
+               keep=lambda w: sum(1 for o in w if o["op"] in ("set", "del")) >= 2 and any(o["op"] in ("commit", "gc", "rollback") for o in w), **common)
+    if not quick:
+        os.environ["VERIF_CRASH_ARGS"] = "-points=every:2 -double=3"
+        spec_stage(chk, "crash_5ops", "FsDbCrash.tla", dict(Keys=K2, MaxOps=5, MaxCrash=1, SwapRecordOrder=False, SplitCommit=False),
+                   exe="crash", sample=1500, chunk=8, keep=lambda w: any(o["op"] == "commit" for o in w) and sum(1 for o in w if o["op"] == "set") >= 2, **common)
+        # vacuity guard: the two seeded design errors must be refuted by TLC on the same configuration
+        wd = vlib.scratch("crv")
+        try:
+            for flag in ("SwapRecordOrder", "SplitCommit"):
+                consts = dict(Keys=K2, MaxOps=5, MaxCrash=1, SwapRecordOrder=(flag == "SwapRecordOrder"), SplitCommit=(flag == "SplitCommit"))
+                cfg = os.path.join(wd, flag + ".cfg")
+                vlib.write_cfg(cfg, consts, view="CView", invariants=("RecoveredIsAcked", "IdleIsAcked", "ListedIsReadable"))
+                r = vlib.run_tlc("FsDbCrash.tla", cfg, wd, timeout=1500)
+                st = chk.add_tlc("seeded_design_error_" + flag, r, consts)
+                st["refuted"] = bool(r.violation)
+                if not r.violation:
+                    raise Inconclusive("FsDbCrash.tla does not refute the seeded design error %s: the invariants are vacuous" % flag)
+        finally:
+            shutil.rmtree(wd, ignore_errors=True)
+    os.environ.pop("VERIF_CRASH_ARGS", None)
+    chk.assumptions += ["kill -9 semantics: the page cache survives; power loss and fsync are outside the property's quantifier",
+                        "Badger's own commit is atomic; the client waits for the cleaner between two calls, as the specification does"]
+
+
 def c05(chk):
     quick = chk.tier == "quick"
     # (a) one process, Close/Open at every position of transactional histories (FsDb.tla)
@@ -939,7 +973,7 @@ def c11(chk):
              mode="both", simulate=40 if quick else 800, depth=30)
 
 
-PLANS = {"C16": c16, "C12": c12, "C06": c06, "C07": c07, "C08": c08, "C17": c17, "C18": c18, "C19": c19, "C20": c20, "C05": c05, "C11": c11, "C01": c01, "C02": c02, "C03": c03, "C09": c09, "C13": c13, "C14": c14}
+PLANS = {"C04": c04, "C16": c16, "C12": c12, "C06": c06, "C07": c07, "C08": c08, "C17": c17, "C18": c18, "C19": c19, "C20": c20, "C05": c05, "C11": c11, "C01": c01, "C02": c02, "C03": c03, "C09": c09, "C13": c13, "C14": c14}
 
 
 def main():
